@@ -476,5 +476,7 @@ func runC03(r *an.Run) {
 				o.FailAt(f.ID+"#AtIndex", f.Where(f.Body.Pos()), "the unrevoked commit point must come from RevocationProducer.AtIndex(local height)")
 			}
 		})
+	commitStoreTransactions(r)
 	windowDiscipline(r)
+	modifiedMarkerDiscipline(r)
 }
